@@ -6,7 +6,7 @@ vars == <<d, modes, last>>
 
 InitKeys == {1, 2, 3}
 InitVals == {1, 2}
-KArgs == {1, 4, 11, 99}
+KArgs == {1, 4, 11, 99, 151}        \* 151: the float 1.0 (equal to the key 1, rejected by a validator)
 VArgs == {2, 3, 12, 99}
 Modes == {<<"id", "id">>, <<"coerce", "coerce">>, <<"coerce", "id">>, <<"id", "coerce">>}
 Pair == KArgs \X VArgs
@@ -17,6 +17,7 @@ Init == d \in OrderedDicts /\ modes \in Modes /\ last = [op |-> "init"]
 
 Do(op, a, ps) ==
   LET r == Apply(op, d, modes[1], modes[2], a, ps) IN
+  /\ modes[1] = "id" => (a[1] # 151 /\ \A i \in 1..Len(ps) : ps[i][1] # 151)
   /\ d' = r.post
   /\ last' = [op |-> op, a |-> a, ps |-> ps, kvm |-> modes[1], vvm |-> modes[2], pre |-> d,
               post |-> r.post, ret |-> r.ret, excs |-> r.excs,
@@ -24,7 +25,7 @@ Do(op, a, ps) ==
   /\ UNCHANGED modes
 
 \* mapping form of update cannot carry duplicate keys
-NoDupKeys(ps) == \A i, j \in 1..Len(ps) : i # j => ps[i][1] # ps[j][1]
+NoDupKeys(ps) == \A i, j \in 1..Len(ps) : i # j => RawKey(ps[i][1]) # RawKey(ps[j][1])
 SetItem    == \E k \in KArgs \cup {2}, v \in VArgs \cup {1} : Do("setitem", <<k, v, 0>>, <<>>)
 DelItem    == \E k \in KArgs \cup {2} : Do("delitem", <<k, 0, 0>>, <<>>)
 Update     == \E ps \in PairLists, form \in {0, 1} : (form = 1 \/ NoDupKeys(ps)) /\ Do("update", <<form, 0, 0>>, ps)
